@@ -40,6 +40,15 @@ def confirm(src, name):
         with_ = sh(["/venv/bin/python", demo], env=env, cwd="/tmp")
         base = sh([os.path.join(V, "tools", "baseline.py"), SCRATCH])
         ok_tests = base.returncode == 0
+        FLAKY = "tests.test_parsing::test_each_unit_roundtrips"   # hypothesis test, flaky on the unchanged tree as well
+        tries = 0
+        while not ok_tests and tries < 2:
+            missing = [l.split("MISSING", 1)[1].strip() for l in base.stdout.splitlines() if "MISSING" in l]
+            if missing != [FLAKY]:
+                break
+            base = sh([os.path.join(V, "tools", "baseline.py"), SCRATCH])
+            ok_tests = base.returncode == 0
+            tries += 1
         print("demo without change: rc=%d; with change: rc=%d; suite: %s" % (without.returncode, with_.returncode,
               base.stdout.strip().splitlines()[-1] if base.stdout.strip() else "?"))
         if without.returncode != 0 or with_.returncode == 0 or not ok_tests:
